@@ -174,17 +174,17 @@ def run(pid, level="model_checking"):
     thorough = rep.tier == "thorough"
     st, tr_, cmd = design_check(thorough)
     # ---- code -> spec: random histories
-    n_rand = 3000 if thorough else 600
+    n_rand = 8000 if thorough else 800
     jobs = random_jobs(pid, n_rand, rep.seed, [10, 20, 30, 45] if not thorough else [15, 30, 50, 80])
     # ---- spec -> code: TLC paths
     bat = gen.Gen(rep.seed + 5, ntk=NTK, nfk=NFK).battery(4)
     alpha = {"C03": "update", "C02": "remove", "C10": "meas", "C11": "fail"}.get(pid, "index")
     depth = {"index": 4 if thorough else 3, "update": 2, "remove": 3 if thorough else 2, "meas": 3 if thorough else 2, "fail": 3}[alpha]
     paths, rp = export_paths(alpha, depth, 4)
-    if len(paths) > (10000 if thorough else 2500):
+    if len(paths) > (25000 if thorough else 3000):
         rnd = random.Random(rep.seed)
-        paths = rnd.sample(paths, 10000 if thorough else 2500)
-    sims, rs = export_paths(alpha, 10 if thorough else 8, 5, simulate="num=%d" % (400 if thorough else 60),
+        paths = rnd.sample(paths, 25000 if thorough else 3000)
+    sims, rs = export_paths(alpha, 10 if thorough else 8, 5, simulate="num=%d" % (800 if thorough else 80),
                             sim_depth=(11 if thorough else 9), seed=rep.seed + 1)
     jobs += path_jobs(paths, "p", bat) + path_jobs(sims, "s", bat)
     own_all = set()
@@ -192,7 +192,7 @@ def run(pid, level="model_checking"):
         # flush_on_insert=False: the rewrite of remove / update must not lose buffered rows; contents cannot be projected at
         # every step there, so each write is followed by all() and the history ends with close + file comparison
         f = FOCUS[pid]
-        for i in range(200 if thorough else 40):
+        for i in range(800 if thorough else 60):
             g = gen.Gen(rep.seed * 31337 + i, ntk=NTK, nfk=NFK, focus=dict(f["weights"], reopen=0), handles=0.1)
             ops = []
             for a in g.history(g.r.choice([8, 14, 20]), p_read=0.2):
@@ -233,7 +233,7 @@ def run(pid, level="model_checking"):
         # error paths: an OSError at every I/O call of the operations of a few histories; afterwards a valid
         # index must still mirror the object's own storage (clause fault_index of Trace_TinyFlux)
         import c13
-        fjobs = c13.fault_jobs(random.Random(rep.seed * 77 + 6), 40 if thorough else 8, thorough, per_op=15)
+        fjobs = c13.fault_jobs(random.Random(rep.seed * 77 + 6), 120 if thorough else 8, thorough, per_op=15)
         frec = traces.record_faults(fjobs)
         fver, fjs = traces.judge(frec)
         n_fault = len(frec)
